@@ -260,6 +260,12 @@ class GatherMixin:
                         v = SData(v, name=k)
                     base.vars[k] = v
                     return
+            from .lazy import _Map
+            if isinstance(base, _Map) and base.name.endswith(".attrs"):
+                k = self.eval(t.slice, st)
+                if isinstance(k, str):
+                    base.d[k] = v   # dataset attribute (metadata) store
+                    return
             return super().assign_target(ast.Subscript(value=_Lit(base), slice=t.slice, ctx=t.ctx, lineno=t.lineno, col_offset=0), v, st, s)
         if isinstance(t, ast.Attribute):
             base = self.eval(t.value, st)
@@ -342,6 +348,18 @@ class GatherMixin:
         if isinstance(v, Gath):
             return Gath(v.mask, lambda ix, st2, v=v: (fl.isnan(v.val(ix, st2)) if is_float(v.val(ix, st2)) else False), "b")
         return super().b_numpy_isnan(args, kw, st, n)
+
+    def b_numpy_isfinite(self, args, kw, st, n):
+        v = args[0]
+        if is_arr(v):
+            src = frozen(v, st)
+            return LArr("b", shape_of(v), lambda ix, st2, src=src: (fl.isfin(elem(src, ix, st2)) if is_float(elem(src, ix, st2)) else True),
+                        None, "isfinite")
+        if isinstance(v, Gath):
+            return Gath(v.mask, lambda ix, st2, v=v: (fl.isfin(v.val(ix, st2)) if is_float(v.val(ix, st2)) else True), "b")
+        if is_float(v):
+            return fl.isfin(fl.F(v))
+        return True
 
     def b_numpy_logical_or(self, args, kw, st, n):
         return self.elementwise("|", args[0], args[1], st)
